@@ -155,11 +155,11 @@ def oracle(scn) -> core.CaseResult:
         if scn.get("same_stem") and len(files) >= 2:
             res.cls("same_stem_two_or_more_files")
         outname = "out_001.nc" if scn["warm"] else ("out.nc" if not scn["output"]["numrec"] else None)
-        nrec_file = None
-        if outname:
-            nrec_file = len(e2e.read_sparse(d / outname)["times"])
-        else:
-            nrec_file = sum(len(e2e.read_sparse(d / n)["times"]) for n in e2e.list_outputs(d))
+        file_recs = []   # (time, pids) of every record on file
+        for nme_ in ([outname] if outname else e2e.list_outputs(d)):
+            f_ = e2e.read_sparse(d / nme_)
+            file_recs += [(t_, [int(p_) for p_ in rc_["pid"]]) for t_, rc_ in zip(f_["times"], f_["records"])]
+        nrec_file = len(file_recs)
     # forcing-derived values in a record are valid at the record's time: the scalar copied to the state is the
     # value of the latest frame at or before that time in the particle's own cell (at one of the levels)
     if scn["forcing"]["temp"] and meta.get("extra"):
@@ -255,6 +255,21 @@ def oracle(scn) -> core.CaseResult:
                              f"{c[1]}.{c[2]} at step {c[3]}: particles {sorted(back)} were dead earlier and are alive again"):
                 break
             gone |= {p for p, a in zip(pid_, al_) if not a}
+    # ... and is in no record on file from the next one on, also when nobody at all is left alive
+    for t_, pids_ in file_recs:
+        n_ = int((np.datetime64(t_, "s") - np.datetime64(meta["start"], "s")) / np.timedelta64(sim.DT, "s"))
+        dead_ = set()
+        for c in calls:
+            if len(c) > 6 and isinstance(c[6], dict) and "alive" in c[6] and c[3] is not None and \
+                    (c[3] < n_ or (c[3] == n_ and c[1] in ("release", "forcing", "output"))):
+                dead_ |= {int(p) for p, a in zip(c[6]["pid"], c[6]["alive"]) if not a}
+        if not dead_:
+            continue
+        res.cls("record_after_a_kill")
+        if not res.check(not (dead_ & set(pids_)), "killed_in_record_on_file",
+                         f"the record of step {n_} ({t_}) on file holds pids {pids_}; {sorted(dead_ & set(pids_))} were dead "
+                         f"before it was written"):
+            break
     # close exactly once per recorded module, after the last update
     last_upd = max([i for i, c in enumerate(calls) if c[2] in ("update", "write")], default=-1)
     for s in recorded:
